@@ -531,7 +531,8 @@ def _get_sort_aux(node):  # noqa: C901
         if ident == 'select':
             asort = get_sort(node[1])
             if is_array_sort(asort):
-                return asort[1]
+                # (Array <index sort> <element sort>)
+                return asort[2]
             return None
         if ident == 'store':
             return get_sort(node[1])
